@@ -73,6 +73,48 @@ def run(ctx):
         rep.check(d == 1 and dom, 'R-C08-3', key, '%s of a term of degree exactly 1 in the weight: %s' % (op, short(val, 110)),
                   '%s accumulates a term of degree %s in this proof\'s weight%s: %s' % (op, d, '' if dom else ' (not dominated by the draw)', short(val, 200)), ctx.where(v, bb))
     rep.floor('R-C08-3', 'accumulation sites in the per-proof loop', n, 6)
+    # .. for every member: within one iteration an accumulation may be skipped (without refusing) only on a test of the requested action
+    # (RecoverOnly computes no verdict); a skip decided by the member's own data -- it has no seed, it is aggregated, its promise is
+    # None -- takes that member out of the equation while the batch is still accepted
+    act = [i for i in range(1, v.argc + 1) if 'VerifyAction' in v.local_ty(i)]
+    skipped = {}
+    site_bbs = {e[4][0][1] for e in evs if e[4] and e[4][0][0] == v.key}
+    blocksL = cfg.loops[L]
+
+    def avoids_all(start):
+        # is the end of the iteration reachable from `start` without passing any accumulation site?  (a test that only decides whether
+        # one optional term is added -- a promise that is None -- still runs into the sites that follow it)
+        seen, work = set(), [start]
+        while work:
+            x = work.pop()
+            if x in seen or x not in blocksL or x in site_bbs:
+                continue
+            seen.add(x)
+            for y in cfg.succ.get(x, []):
+                if y == L:
+                    return True
+                work.append(y)
+        return False
+    for e in evs:
+        if not e[4]:
+            continue
+        bb = e[4][0][1]
+        for (sw, cond, sure, maybe) in ctx.control_deps_transitive(v, bb):
+            if sw not in blocksL or cfg.loop_of.get(sw, [None])[-1] != L:
+                continue
+            ps = {x[2] for x in walk(cond) if x.tag == 'param' and x[1] == v.key}
+            if not (ps - set(act)):
+                continue
+            t_sw = v.block[sw]['term']
+            edges = dict([(str(val), tg) for val, tg in t_sw['arms']] + [('otherwise', t_sw['otherwise'])])
+            if any(avoids_all(edges[a]) for a in maybe if a in edges):
+                skipped.setdefault(sw, (cond, maybe, bb))
+    for sw, (cond, maybe, bb) in sorted(skipped.items()):
+        rep.violation('R-C08-3', 'R-C08-3/every-member/%s' % canon(cond)[:100],
+                      'a member can be left out of the gate without being refused: arm %s of the test on %s bypasses accumulation sites of the per-proof loop' % (list(maybe), short(cond, 120)),
+                      ctx.where(v, sw))
+    if not skipped:
+        rep.ok('R-C08-3', 'R-C08-3/every-member', 'no accumulation site of the per-proof loop can be bypassed on a test of the member\'s own data (%d sites)' % len(evs), ctx.where(v, L))
 
     # ---- R-C08-1 provenance
     rng = strip(w[2][0]) if w[2] else None
